@@ -10,6 +10,14 @@ import (
 	"regexp"
 )
 
+// checkLine checks that l is a number of a line in the listing.
+func checkLine(m *mode, l int) error {
+	if ln := m.view.Lines.Len(); l >= ln {
+		return fmt.Errorf("line number too big: %d >= %d", l, ln)
+	}
+	return nil
+}
+
 func commands(m *mode) []consoleui.Command {
 	return []consoleui.Command{{
 		Keys: []string{"down", "d"},
@@ -38,6 +46,12 @@ func commands(m *mode) []consoleui.Command {
 		},
 		Action: func(_ *consoleui.UI, args ...interface{}) error {
 			from, to := args[0].(int), args[1].(int)
+			if err := checkLine(m, from); err != nil {
+				return err
+			}
+			if err := checkLine(m, to); err != nil {
+				return err
+			}
 			m.view.Lines.UnmarkAll()
 
 			err := m.view.Lines.Move(from, to)
@@ -59,6 +73,9 @@ func commands(m *mode) []consoleui.Command {
 		},
 		Action: func(_ *consoleui.UI, args ...interface{}) error {
 			l := args[0].(int)
+			if err := checkLine(m, l); err != nil {
+				return err
+			}
 			m.view.Lines.UnmarkAll()
 
 			block, ok := m.view.Lines.Block(l)
